@@ -34,12 +34,13 @@ Definition near_edge (g : list Q) (c x : Q) : bool :=
 Definition clamp1 (g : list Q) (x : Q) : Q := Qmax (hd 0 g) (Qmin (last g 0) x).
 Definition close_to (tol a b : Q) : bool := Qle_bool (Qabs (a - b)) tol.
 
-(* last rotation step's explicit n, None when the last rotation used the default *)
+(* last ACCEPTED rotation step's explicit n (refused calls do not count), None inside when it used the default *)
 Fixpoint last_rot (ops : list op) (cur : option (option n3)) : option (option n3) :=
   match ops with
   | [] => cur
-  | ORot _ nopt :: t => last_rot t (Some nopt)
+  | ORot M nopt :: t => last_rot t (if op_accepted (ORot M nopt) then Some nopt else cur)
   | OClear :: t => last_rot t None
+  | ORefused :: t => last_rot t cur
   end.
 
 (* values: the model side is rotated_val_fast unfolded (so that the back-rotated centre is shared with
